@@ -80,8 +80,9 @@ PROPS = {
                    {"name": "modsys", "quick": 3000, "thorough": 30000}],
         "level_text": "Lean theorems about the models of modulator/lfo.rs, modulator/tweener.rs, the modulator store "
                       "(SelfReferentialResourceStorage::for_each / remove_and_add) and Renderer::process_chunk over the reals: "
-                      "LFO value = offset + amplitude*waveform(phase) within offset +/- |amplitude| for all four waveforms, phase = "
-                      "fract(phase0 + sum dt*f) for every partition of time, piecewise waveform formulas; the tweener equals a "
+                      "LFO value = offset + amplitude*waveform(phase) within offset +/- |amplitude| for all four waveforms and every "
+                      "phase and frequency (negative ones included), phase = fract(phase0 + sum dt*f) in [0, 1) (Euclidean) for "
+                      "every partition of time, piecewise waveform formulas; the tweener equals a "
                       "Parameter<f64> on every history of sets and updates (hence C06's closed form, exact landing, holding); "
                       "mappings clamp (both range orientations); a linked parameter equals mapping.map(value the modulator produced "
                       "in this same chunk) for readers of the clock, listener and mixer stages; raw_value = None holds the last "
@@ -91,15 +92,19 @@ PROPS = {
                       "ModulatorBuilder::build with handles and MockInfo, and a whole AudioManager<ProbeBackend> with modulators "
                       "added / commanded / dropped between callbacks of varying sizes (values seen by user-defined probe "
                       "modulators and a probe sound, linked f64 parameters, the main track's gain envelope)",
-        "level_note": "theorems over ideal real arithmetic; three parts of the property are FALSE of the code and are proved as "
+        "level_note": "theorems over ideal real arithmetic; two parts of the property are FALSE of the code and are proved as "
                       "negation witnesses + restricted (_partial) statements, reproduced on the real code and listed as known "
-                      "findings: negative LFO phase leaves the range (saw/triangle), a modulator linked to a LATER modulator lags "
-                      "one chunk, a self-linked modulator reads the dummy's 0.0. Readers in the system suite are a sound-owned "
+                      "findings: a modulator linked to a LATER modulator lags "
+                      "one chunk, a self-linked modulator reads the dummy's 0.0 (a third, a negative LFO phase leaving the range, "
+                      "was repaired in kira: the LFO range / phase theorems are full strength now; the binary64 corner "
+                      "rem_euclid(1.0) = 1.0 for a remainder in [-2^-54, 0) is outside the real-number theorems and inside the "
+                      "twin). Readers in the system suite are a sound-owned "
                       "Parameter<f64> and the main track volume; clock-speed and listener links are covered by the chunk-order "
                       "theorem and by C05/C15's suites, not by a twin here",
         "assumptions": [
             "update steps dt >= 0 and finite; easing powers > 0; mapping input range non-degenerate (in0 != in1)",
-            "LFO range/phase theorems: phase >= 0 and frequency >= 0 (the code misbehaves outside: finding lfo-negative-phase)",
+            "LFO phase theorems speak about the state after at least one update (a freshly built LFO / a set_phase holds "
+            "starting_phase / 2 pi unwrapped until the next update; its value() is not computed from it before)",
             "modulator ids (arena keys: slot + generation) modelled as never-reused naturals; distinct ids in the store",
             "remove_unused never stops early: the unused-resource ring (capacity = arena capacity, drained by every add) "
             "cannot be full while a finished modulator remains (C08's subject)",
